@@ -58,8 +58,15 @@ func fmtToBuiltin(fctx *formatCtx, ctx *importCtx, sel *ast.Ident, ref *ast.Expr
 // -----------------------------------------------------------------------------
 
 func commandStyleFirst(v *ast.CallExpr) {
-	switch v.Fun.(type) {
-	case *ast.Ident, *ast.SelectorExpr:
+	fn := v.Fun
+	for {
+		sel, ok := fn.(*ast.SelectorExpr)
+		if !ok {
+			break
+		}
+		fn = sel.X
+	}
+	if _, ok := fn.(*ast.Ident); ok { // a command starts with an identifier: not '(&p).inc 3'
 		if v.NoParenEnd == token.NoPos {
 			v.NoParenEnd = v.Rparen
 		}
